@@ -46,9 +46,9 @@ def Err.token : Err → String
 
 abbrev R := Except Err
 
-def blockSize : Nat := 512
-def volHeaderBlock : Nat := 2
-def entrySize : Nat := 26
+abbrev blockSize : Nat := 512
+abbrev volHeaderBlock : Nat := 2
+abbrev entrySize : Nat := 26
 /-- `types.rs::INVALID_CHARS = " $=?,[#:"` -/
 def invalidChars : List Nat := [32, 36, 61, 63, 44, 91, 35, 58]
 
@@ -355,6 +355,15 @@ def dataLoop (chunks : List (Nat × Bytes)) (beg : Nat) : Raw → List Nat → R
       | .error e => (.error e, r)
       | .ok r' => dataLoop chunks beg r' bs
 
+/-- the seven field assignments of `write_file` on the free slot `e0`:
+`begin_block = beg; end_block = beg + n; file_type; name_len; name; bytes_remaining = rem; mod_date = date` -/
+def putEntry (e0 : Bytes) (beg n fsType : Nat) (name : Bytes) (rem : Nat) (date : Bytes) : Bytes :=
+  splice (splice (splice (splice (splice (splice (splice e0 0 (u16le beg)) 2 (u16le (beg + n))) 4 (u16le fsType))
+    6 [name.length % 256]) 7 (stringToFileName name)) 22 (u16le rem)) 24 (date.take 2)
+
+/-- the header `write_file` saves: `num_files += 1; last_access_date = date` -/
+def putHeader (h : Bytes) (date : Bytes) : Bytes := splice (splice h 16 (u16le (le16 h 16 + 1))) 18 (date.take 2)
+
 /-- `put(fimg)`; `date` is `pack_date(None)` (the harness pins the clock) -/
 def put (r : Raw) (f : FImg) (date : Bytes) : R Nat × Raw :=
   if !f.fsOk then (.error .devErr, r) else
@@ -377,21 +386,13 @@ def put (r : Raw) (f : FImg) (date : Bytes) : R Nat × Raw :=
       let i := dir.numFiles
       if ¬ i < dir.entries.length then (.error .noRoom, r) else
       if !(List.range dataBlocks).all (fun b => (f.chunks.lookup b).isSome) then (.error .badFormat, r) else
-      -- u16 / usize arithmetic that panics in a debug build
+      -- u16 / usize arithmetic that panics in a debug build: `beg + n as u16`, `512*n - eof`, `num_files + 1`
       if beg + dataBlocks % 65536 > 65535 then (.error .panic, r) else
       if blockSize * dataBlocks < f.eof then (.error .panic, r) else
       if dir.numFiles + 1 > 65535 then (.error .panic, r) else
-      let e0 := dir.entries.getD i []
-      let e1 := splice e0 0 (u16le beg)
-      let e2 := splice e1 2 (u16le (beg + dataBlocks % 65536))
-      let e3 := splice e2 4 (u16le f.fsType)
-      let e4 := splice e3 6 [name.length % 256]
-      let e5 := splice e4 7 (stringToFileName name)
-      let e6 := splice e5 22 (u16le ((blockSize * dataBlocks - f.eof) % 65536))
-      let e7 := splice e6 24 (date.take 2)
-      let h1 := splice dir.header 16 (u16le (dir.numFiles + 1))
-      let h2 := splice h1 18 (date.take 2)
-      match saveDirectory r { header := h2, entries := dir.entries.set i e7 } with
+      let e := putEntry (dir.entries.getD i []) beg (dataBlocks % 65536) f.fsType name
+        ((blockSize * dataBlocks - f.eof) % 65536) date
+      match saveDirectory r { header := putHeader dir.header date, entries := dir.entries.set i e } with
       | (.error e, r') => (.error e, r')
       | (.ok _, r') =>
         match dataLoop f.chunks beg r' (List.range dataBlocks) with
